@@ -5845,6 +5845,12 @@ impl BytecodeVM {
                     .ok_or_else(|| JsError::internal_error("Invalid binding name constant"))?;
                 let val = self.get_reg(value).clone();
 
+                // Until the namespace object is built the exports map may be the only
+                // reference to the value (no binding for `export default <expr>`)
+                if let JsValue::Object(obj) = &val {
+                    interp.exports_guard.guard(obj.cheap_clone());
+                }
+
                 // Store in interpreter's exports map
                 interp.exports.insert(
                     export_name_str,
